@@ -1,7 +1,7 @@
 (** C03 — function versions are deterministic.
     Statements only (model Version/Rules.v, proofs Version/RulesProofs.v). *)
 From Coq Require Import List Arith Bool.
-From Memento Require Import Version.Rules Version.RulesProofs.
+From Memento Require Import Version.Rules Version.RulesProofs Gen.SourceFacts Gen.FactsOK.
 Import ListNotations.
 
 (** two presentations of one program that differ only in the order in which each function's
@@ -18,6 +18,12 @@ Print Assumptions C03_version_order_independent.
 Theorem C03_rule_keys_identify_rules : forall r r', rule_sortkey r = rule_sortkey r' -> r = r'.
 Proof. exact sortkey_inj. Qed.
 Print Assumptions C03_rule_keys_identify_rules.
+
+(** the current source orders the rules by key and serialises set constants canonically *)
+Theorem C03_current_source_orders_rules_by_key : rules_sorted_by_key = Some true.
+Proof. exact rules_sorted_by_key_ok. Qed.
+Theorem C03_current_source_set_constants_canonical : setconst_canonical = Some true.
+Proof. exact setconst_canonical_ok. Qed.
 
 Example C03_witness :
   let mk k c refs := {| s_kind := k; s_code := c; s_defaults := 0; s_refs := refs |} in
